@@ -30,7 +30,7 @@ RULE = ("request = method(all 9) x unicode path (reserved and percent characters
         "the first yield / after an empty yield / after the first write) x status x headers x binary body; "
         "distinct = distinct (request inputs, application spec); non-trivial = the application was reached and a "
         "response came back")
-RULE = __import__("vf.core", fromlist=["rule_add"]).rule_add(RULE, 'also choppy connections, Connection: close requests, later requests that name no path, and the same Patron reconnected after a close (streamed responses next)')
+RULE = __import__("vf.core", fromlist=["rule_add"]).rule_add(RULE, 'also choppy connections, Connection: close requests, later requests that name no path, and the same Patron reconnected after a close (streamed responses next), raised errors that bring their own Content-Type, bodiless responses that declare a length')
 META = {"engine": "E http", "technique": "round trip through real client and server objects against the generator's content",
         "level_text": "exploration: sampled requests x sampled application shapes, every shape and payload kind floor-counted",
         "level_note": "one request per connection (keep-alive sequences are C31); GET carries no body (documented client "
